@@ -790,8 +790,15 @@ func (f *Flooder) cleanup() {
 	f.nodeInfoMu.Unlock()
 
 	// Cleanup sleep command cache
+	// A signed command stays verifiable for the whole timestamp window on
+	// either side of its timestamp, so its replay-cache entry must live at
+	// least twice the window after it was first seen.
+	sleepExpiry := expiry
+	if 2*f.timestampWindow > sleepExpiry {
+		sleepExpiry = 2 * f.timestampWindow
+	}
 	f.sleepCmdMu.Lock()
-	f.cleanupSleepCmdCache(now, expiry)
+	f.cleanupSleepCmdCache(now, sleepExpiry)
 	f.sleepCmdMu.Unlock()
 }
 
@@ -850,6 +857,13 @@ func (f *Flooder) cleanupSleepCmdCache(now time.Time, expiry time.Duration) {
 		if now.Sub(entry.SeenAt) > expiry {
 			delete(f.sleepCmdSeenCache, key)
 		}
+	}
+
+	// With a signing key every entry belongs to a verified command (forgeries
+	// are rejected before they are recorded), so the cache cannot be inflated
+	// and live entries must not be evicted: that would let the command replay.
+	if f.signingPubKey != nil {
+		return
 	}
 
 	// If still too large, remove oldest entries
@@ -1187,21 +1201,23 @@ func (f *Flooder) markSleepCmdSeen(originAgent identity.AgentID, commandID uint6
 // HandleSleepCommand processes an incoming SLEEP_COMMAND frame.
 // Returns true if the command was new and should be processed.
 func (f *Flooder) HandleSleepCommand(fromPeer identity.AgentID, cmd *protocol.SleepCommand) bool {
-	if !f.markSleepCmdSeen(cmd.OriginAgent, cmd.CommandID, fromPeer) {
-		return false
-	}
-
-	if containsAgent(cmd.SeenBy, f.localID) {
-		return false
-	}
-
-	// Verify signature if signing key is configured
+	// Verify signature if signing key is configured. This happens before the
+	// command is recorded as seen, so that forged commands cannot fill the
+	// replay cache and push out the entries of genuine ones.
 	if err := f.verifySleepCommand(cmd); err != nil {
 		f.logger.Warn("sleep command rejected",
 			"origin", cmd.OriginAgent.ShortString(),
 			"command_id", cmd.CommandID,
 			"from_peer", fromPeer.ShortString(),
 			logging.KeyError, err)
+		return false
+	}
+
+	if !f.markSleepCmdSeen(cmd.OriginAgent, cmd.CommandID, fromPeer) {
+		return false
+	}
+
+	if containsAgent(cmd.SeenBy, f.localID) {
 		return false
 	}
 
@@ -1220,21 +1236,23 @@ func (f *Flooder) HandleSleepCommand(fromPeer identity.AgentID, cmd *protocol.Sl
 // HandleWakeCommand processes an incoming WAKE_COMMAND frame.
 // Returns true if the command was new and should be processed.
 func (f *Flooder) HandleWakeCommand(fromPeer identity.AgentID, cmd *protocol.WakeCommand) bool {
-	if !f.markSleepCmdSeen(cmd.OriginAgent, cmd.CommandID, fromPeer) {
-		return false
-	}
-
-	if containsAgent(cmd.SeenBy, f.localID) {
-		return false
-	}
-
-	// Verify signature if signing key is configured
+	// Verify signature if signing key is configured. This happens before the
+	// command is recorded as seen, so that forged commands cannot fill the
+	// replay cache and push out the entries of genuine ones.
 	if err := f.verifyWakeCommand(cmd); err != nil {
 		f.logger.Warn("wake command rejected",
 			"origin", cmd.OriginAgent.ShortString(),
 			"command_id", cmd.CommandID,
 			"from_peer", fromPeer.ShortString(),
 			logging.KeyError, err)
+		return false
+	}
+
+	if !f.markSleepCmdSeen(cmd.OriginAgent, cmd.CommandID, fromPeer) {
+		return false
+	}
+
+	if containsAgent(cmd.SeenBy, f.localID) {
 		return false
 	}
 
